@@ -2267,6 +2267,20 @@ theorem C18_legacy_skip_is_break_witness :
   decide
 
 
+/-- SKIP in the body of a loop with an UNTIL control (the one exclusion of `Stmt.wf`): `REPEAT i := 1 TO 5 UNTIL i >= 2;
+IF i = 2 THEN SKIP; END_IF; r := r + i; END_REPEAT; RETURN (r)` from r = 0 — EXPRESS evaluates UNTIL after the SKIP and
+ends the loop with r = 1; the written `continue` jumps over the written `if …: break`, the loop goes on into the next iteration and returns 4. -/
+theorem C18_skip_under_until_witness :
+    let cond : Body.Expr := .bin .eq (.attr "i") (.int 2)
+    let un : Body.Expr := .bin .ge (.attr "i") (.int 2)
+    let add : Body.Expr := .bin .plus (.attr "r") (.attr "i")
+    let src : Stmt.Stmt := .seq (.repeatInc "i" (.int 1) (.int 5) 1 none (some un) (.seq (.ite cond .skip .nop) (.assign "r" add))) (.ret (.attr "r"))
+    Stmt.wf src = false ∧
+    (Spec.Stmt.exec 30 [("r", .int 0)] src).map (·.2) = some (.returned (.int 1)) ∧
+    ((Stmt.tr src).bind (fun p => Stmt.pyExec 30 (Body.instanceOf [("r", .int 0)]) p)).map (·.2) = some (.returned (.int 4)) := by
+  decide
+
+
 /-! ### the hypotheses of the declaration-order theorem are satisfiable -/
 
 theorem rank_of_anc (es : List Entity) (r : String → Nat)
